@@ -22,7 +22,7 @@ SPEC = {
     "stages": [
         hyp("c12_script.py", 4000, 100000, needs=[("san", "sutd")], min_cases_quick=2000,
             floors=dict(_OPS_FLOOR, **{"kind:eval": 0.5, "kind:spend": 0.12, "ok": 0.2, "sv:witness_v0": 0.1, "deep-stack": 0.005, "big-script": 0.004,
-                                      "template:p2tr_budget": 0.001, "template:p2tr_script": 0.002, "template:p2wsh_script": 0.002, "template:p2sh_multisig": 0.001,
+                                      "template:p2tr_budget": 0.001, "template:p2tr_unknownpk": 0.004, "unknownpk:budget-edge-over": 0.001, "template:p2tr_script": 0.002, "template:p2wsh_script": 0.002, "template:p2sh_multisig": 0.001,
                                       "fail:MINIMALDATA": 0.002, "fail:OP_COUNT": 0.002, "fail:STACK_SIZE": 0.002, "fail:PUSH_SIZE": 0.0005, "fail:PUBKEY_COUNT": 0.001,
                                       "fail:DISABLED_OPCODE": 0.005}),
             rule="grammar-generated scripts (bare EvalScript, base / witness v0) and generated spends with real signatures (VerifyScript incl. P2SH, segwit v0, "
